@@ -17,7 +17,11 @@ RULE = ("every expression tree of depth <= 1 over From/FromSlice/TakeWhile/DropW
         "(source slices of length 0..3, From, join-argument leaves), 7 predicates (<c, !=c, parity, true, false), 3 maps, "
         "3 slice-returning join functions (replicate, range, nil) and 8 nested-expression join functions; at depth 2 every unary "
         "operator over every depth-1 tree, Plus of every depth-1 tree with every leaf on either side and a seeded sample of "
-        "Plus(depth 1, depth 1); seeded random trees of depth 3..6 (thorough: ..7, slices up to length 6; random trees with more than 1500 result elements or 4000 constructor/join-function calls are skipped). Each tree is built "
+        "Plus(depth 1, depth 1); joins whose function is CONDITIONAL - nil for some outer elements (11 guards over 3 outer slices: nil "
+        "first, between, several in a row, at the end, alternating, all) and otherwise an early-stopping expression of the argument "
+        "(TakeWhile/DropWhile/Filter with 5 non-monotone predicates - parity, mod 3, membership - over 4 slices where the predicate "
+        "fails in the middle and holds again later, and 60 compositions of them with Plus/Map/Filter/Join/nested conditional joins): "
+        "all 3960, a sample inside a further operator, and seeded random ones; seeded random trees of depth 3..6 (thorough: ..7, slices up to length 6; random trees with more than 1500 result elements or 4000 constructor/join-function calls are skipped). Each tree is built "
         "from the real constructors, drained with the documented loop and (depth <= 1: always, deeper: sampled) consumed by "
         "seq.ForEach with a callback failing at call 0/1/2/never or on a predicate. A case is distinct by (tree, consumption mode) "
         "and non-trivial when the required list is non-empty")
@@ -104,6 +108,10 @@ def pcode(p):
         return "(PNe %s)" % vlib.zlit(p.get("c", 0))
     if k == "par":
         return "(PPar %s)" % vlib.zlit(p.get("c", 0))
+    if k == "mod":
+        return "(PMod %s %s)" % (vlib.zlit(p.get("c", 0)), vlib.zlit(p.get("r", 0)))
+    if k == "in":
+        return "(PIn %s)" % vlib.zlist(p.get("xs", []))
     return {"true": "PTrue", "false": "PFalse"}[k]
 
 
@@ -136,6 +144,8 @@ def ecode(t):
         return "(EJoin %s %s)" % (JC[t["j"]], ecode(t["s"]))
     if o == "joine":
         return "(EJoinE %s %s)" % (ecode(t["b"]), ecode(t["s"]))
+    if o == "when":
+        return "(EWhen %s %s)" % (pcode(t["p"]), ecode(t["s"]))
     raise ValueError(o)
 
 
@@ -162,6 +172,7 @@ def to_coq(c):
 # ---------------------------------------------------------------- pretty printing
 def ppred(p):
     return {"lt": "x<%d" % p.get("c", 0), "ne": "x!=%d" % p.get("c", 0), "par": "x%%2==%d" % p.get("c", 0),
+            "mod": "x%%%d==%d" % (p.get("c", 0), p.get("r", 0)), "in": "x in %s" % p.get("xs", []),
             "true": "true", "false": "false"}[p["k"]]
 
 
@@ -187,6 +198,8 @@ def pexpr(t):
         return "Join(%s, %s)" % (pexpr(t["s"]), {"repl": "x->FromSlice(x repeated x%3 times)", "range": "x->FromSlice([x..x+x%4))", "nil": "x->nil"}[t["j"]])
     if o == "joine":
         return "Join(%s, x->%s)" % (pexpr(t["s"]), pexpr(t["b"]))
+    if o == "when":
+        return "[%s ? %s : nil]" % (ppred(t["p"]), pexpr(t["s"]))
     raise ValueError(o)
 
 
@@ -202,6 +215,10 @@ def pmode(m):
 # (a third reading of the codes, used to SHOW what was required; the verdict is Coq's Check.C14.oracle)
 def ip(p, v):
     k = p["k"]
+    if k == "mod":
+        return v % p.get("c", 0) == p.get("r", 0)
+    if k == "in":
+        return v in p.get("xs", [])
     return {"lt": v < p.get("c", 0), "ne": v != p.get("c", 0), "par": v % 2 == p.get("c", 0), "true": True, "false": False}[k]
 
 
@@ -225,6 +242,8 @@ def pden(t, x=0):
         return [x + y for y in t.get("xs", [])]
     if o == "plus":
         return pden(t["l"], x) + pden(t["r"], x)
+    if o == "when":
+        return pden(t["s"], x) if ip(t["p"], x) else []
     l = pden(t["s"], x)
     if o == "takew":
         r = []
